@@ -219,8 +219,14 @@ def run(ctx):
             rctx = simpleTALES.Context(allowPythonPath=0)
             for k, v in g.items():
                 rctx.addGlobal(k, v)
-            rctx.pushLocals()
-            rctx.setLocal("preset", "local-before")
+            # two caller shapes: a context that already holds a local variable, and one populated with globals only
+            # (how pygopherd's TALFileHandler builds its context: the locals are empty when the first scope opens)
+            if i % 2 == 0:
+                rctx.pushLocals()
+                rctx.setLocal("preset", "local-before")
+                res.count("caller:preset-local")
+            else:
+                res.count("caller:globals-only")
             pre = _snapshot(rctx)
             o = io.StringIO()
             t.expand(rctx, o)
